@@ -378,10 +378,7 @@ impl Parser {
                 let name = String::from(".");
                 (Some(ast::Ident { pos, name }), self.string_literal()?)
             }
-            Token::Literal(LitKind::String, value) => {
-                self.next()?;
-                (None, ast::StringLit { pos, value })
-            }
+            Token::Literal(LitKind::String, value) => (None, ast::StringLit { pos, value }),
             other => return Err(self.unexpected(exp_list, Some((pos, other)))),
         };
 
